@@ -56,30 +56,37 @@ def Tables.covers (t : Tables) (pats : List Pattern) (comps : List Str) : Bool :
   pats.all fun p => p.parts.all fun q => q.simple || q.pat == [] || comps.all fun cc => t.hasGlob q.pat cc
 
 structure Flags where
-  exLists : List PatList
+  ex : PatternOpts
+  inc : PatternOpts
+  exLists : List PatList          -- `none` of collectPatterns is reported through `fatal`
   inLists : List PatList
-  nEx : Nat
+  nEx : Nat                       -- 0 iff `ExcludePatternOptions.Empty()`
   nIn : Nat
-  allValid : Bool
+  allValid : Bool                 -- both CollectPatterns calls succeeded
 
-/-- pattern flags of restore / rewrite: `ex`, `iex`, `in`, `iin` records (raw flag values, in
-    command line order) → the lists `CollectPatterns` builds (insensitive list first) -/
+/-- pattern options of restore / rewrite. Records (command line order):
+    `ex|iex|in|iin <hex value>` flag values; `exf|iexf|inf|iinf <hex line>*` one record per pattern
+    file with its lines. The lists are built by the model's `collectPatterns`. -/
 def flagsOf (c : Case) (t : Tables) : Except String Flags := do
   let raw (k : String) : List Str := (c.findAll k).toList.map fun r => strOf (r.getD 1 "-")
-  let mk (ins : Bool) (l : List Str) : Except String (List PatList) :=
-    if l.isEmpty then pure [] else
-      let l' := if ins then l.map lowerStr else l
-      if l'.any (fun p => !p.isEmpty && !(t.clean.any (·.1 == (if p.head? == some '!' then p.drop 1 else p)))) then
-        throw "missing-clean-entry"
-      else match parsePatterns t.cleanF l' with
-        | .ok ps => pure [⟨ins, ps⟩]
-        | _ => throw "parsePatterns-failed"
-  let ex := raw "ex"; let iex := raw "iex"; let inc := raw "in"; let iin := raw "iin"
-  let exL := (← mk true iex) ++ (← mk false ex)
-  let inL := (← mk true iin) ++ (← mk false inc)
-  let allValid := (exL ++ inL).all fun l => l.pats.all (validPattern t.globF)
-  pure { exLists := exL, inLists := inL, nEx := ex.length + iex.length, nIn := inc.length + iin.length,
-         allValid := allValid }
+  let files (k : String) : List (List Str) := (c.findAll k).toList.map fun r => (r.toList.drop 1).map strOf
+  let ex : PatternOpts := ⟨raw "ex", raw "iex", files "exf", files "iexf"⟩
+  let inc : PatternOpts := ⟨raw "in", raw "iin", files "inf", files "iinf"⟩
+  -- every pattern string the model will clean must be in the oracle table
+  let all := ex.sens ++ ex.insens ++ ex.insens.map lowerStr ++ inc.sens ++ inc.insens ++ inc.insens.map lowerStr ++
+    readPatternLines ex.files ++ readPatternLines ex.ifiles ++ readPatternLines inc.files ++ readPatternLines inc.ifiles
+  if all.any (fun p => !p.isEmpty && !(t.clean.any (·.1 == (if p.head? == some '!' then p.drop 1 else p)))) then
+    throw "missing-clean-entry"
+  let exC := collectPatterns t.cleanF t.globF ex
+  let inC := collectPatterns t.cleanF t.globF inc
+  pure { ex := ex, inc := inc, exLists := exC.getD [], inLists := inC.getD [],
+         nEx := if ex.isEmpty then 0 else 1, nIn := if inc.isEmpty then 0 else 1,
+         allValid := exC.isSome && inC.isSome }
+
+/-- all parsed patterns the model may evaluate or validate (for the glob table coverage check) -/
+def Flags.allPatterns (f : Flags) (t : Tables) : List Pattern :=
+  (f.exLists ++ f.inLists).flatMap (·.pats) ++
+  parsedOr t.cleanF (f.ex.sens ++ f.ex.insens ++ f.inc.sens ++ f.inc.insens)
 
 /-- names-path of a listing path string "/a/b" -/
 def namesOf (path : Str) : List Str := (splitPath path).drop 1
@@ -92,7 +99,7 @@ def buildTree (es : List (List Str × String × Nat)) : Nat → List Str → Lis
       let name := e.1.getLast?.getD []
       if e.2.1 == "d" then .dir name (buildTree es d e.1)
       else if e.2.1 == "f" then .file name e.2.2
-      else .other name
+      else .other name (e.2.1 == "s")
 
 def listingOf (c : Case) (key : String) : List (List Str × String × Nat) :=
   (c.findAll key).toList.map fun r => (namesOf (strOf (r.getD 1 "-")), r.getD 2 "o", (r.getD 3 "0").toNat!)
